@@ -69,3 +69,35 @@ fn vk_engine_v2_downgrade() {
   }
   assert!(e.phase != ZmtpPhase::Data);
 }
+
+// vk_engine_traffic_keeps_alive: executable form of C19 obligation ZmtpEngine::process_data.any_inbound_frame_counts_as_liveness:
+// a PING is outstanding, the peer keeps sending data frames, HEARTBEAT_TIMEOUT elapses since the PING:
+// the heartbeat logic must not close the connection.
+#[cfg_attr(kani, kani::proof)]
+#[cfg_attr(not(kani), test)]
+#[cfg_attr(kani, kani::unwind(6))]
+#[cfg_attr(kani, kani::stub(alloc::fmt::format, vk_format))]
+fn vk_engine_traffic_keeps_alive() {
+  let extra_ms: u8 = vk_any();
+  let mut cfg = crate::socket::options::ZmtpEngineConfig::default();
+  cfg.heartbeat_ivl = Some(Duration::from_millis(1000));
+  cfg.heartbeat_timeout = Some(Duration::from_millis(1000));
+  let mut e = ZmtpEngine::new(false, std::sync::Arc::new(cfg));
+  e.phase = ZmtpPhase::Data;
+  e.version = Some(ZmtpVersion::V3);
+  let t0 = Instant::now();
+  e.last_activity_time = t0;
+  let out1 = e.on_tick(t0 + Duration::from_millis(1000));
+  assert!(out1.net_actions.len() == 1, "PING expected after one idle interval");
+  assert!(e.is_waiting_for_pong());
+  // the peer is alive: a data frame arrives after the PING (its PONG is still queued behind a large message, say)
+  let out2 = e.on_network_bytes(Bytes::from_static(&[0x00, 0x02, b'o', b'k']));
+  assert!(out2.app_actions.iter().any(|a| matches!(a, AppAction::DeliverMessage(_))));
+  let out3 = e.on_tick(t0 + Duration::from_millis(2000 + extra_ms as u64));
+  for a in out3.app_actions.iter() {
+    if let AppAction::PeerError(_) = a {
+      panic!("heartbeat closed a connection on which traffic is flowing");
+    }
+  }
+  assert!(e.phase == ZmtpPhase::Data);
+}
